@@ -193,7 +193,8 @@ impl CertificateRevocationListParams {
 		issuer: &Certificate,
 		issuer_key: &KeyPair,
 	) -> Result<CertificateRevocationList, Error> {
-		if self.next_update.le(&self.this_update) {
+		// Compare what gets encoded: whole seconds
+		if self.next_update.unix_timestamp() <= self.this_update.unix_timestamp() {
 			return Err(Error::InvalidCrlNextUpdate);
 		}
 
